@@ -18,12 +18,32 @@ import (
 func dump(args []string) int {
 	fs := flag.NewFlagSet("dump", flag.ExitOnError)
 	fn := fs.String("func", "", "pkg.Func or pkg.Type.Method (module-relative, root package is '.')")
+	rendM := fs.String("rend", "", "evaluate this Renderer method on the post-Reset state")
+	opq := fs.String("opaque", "", "comma separated function names kept opaque (with -rend)")
+	pinA := fs.String("pin", "", "comma separated Renderer fields pinned to atoms (with -rend)")
 	key := fs.Int("key", -1, "pin input byte 0 of parameter src to this value and use the decoder hooks")
 	fs.Parse(args)
 	prog, err := load.Load(load.RepoDir(), "amd64")
 	if err != nil {
 		fmt.Println(err)
 		return 2
+	}
+	if *rendM != "" {
+		ctx := &rules.Ctx{P: prog, R: report.NewRun("dump", "quick", 0)}
+		var o, pa []string
+		if *opq != "" {
+			o = strings.Split(*opq, ",")
+		}
+		if *pinA != "" {
+			pa = strings.Split(*pinA, ",")
+		}
+		in, mem := rules.DebugRend(ctx, *rendM, o, pa)
+		if in == nil {
+			fmt.Println("not found")
+			return 2
+		}
+		printRun(in, nil, mem)
+		return 0
 	}
 	parts := strings.Split(*fn, ".")
 	rel := parts[0]
@@ -46,6 +66,11 @@ func dump(args []string) int {
 		rules.DebugDecHooks(ctx, in, *key)
 	}
 	res, mem, _ := in.Run(f, nil, nil)
+	printRun(in, res, mem)
+	return 0
+}
+
+func printRun(in *sym.Interp, res *sym.Term, mem *sym.Mem) {
 	for _, ev := range in.Events {
 		if ev.Kind == "return" && ev.Frame.Parent != nil {
 			continue
@@ -68,8 +93,8 @@ func dump(args []string) int {
 	fmt.Println("RESULT", clip(res.Key()))
 	if mem != nil {
 		for _, k := range mem.Keys() {
-			if !strings.HasPrefix(k, "global:") {
-				fmt.Println("MEM", k)
+			if !strings.HasPrefix(k, "global:") && !strings.HasPrefix(k, "alloc:") {
+				fmt.Println("MEM", k, "=", clip(mem.ValueOf(k).Key()))
 			}
 		}
 	}
@@ -77,8 +102,6 @@ func dump(args []string) int {
 		fmt.Println("WARN", w)
 	}
 	fmt.Println("steps", in.Steps)
-	_ = sym.True
-	return 0
 }
 
 var clipLen = 400
